@@ -43,3 +43,20 @@ R.contract(
     allocates=False,
     note="math.log10 on integer-valued arguments: result lies strictly between e-0.5 and e+0.5 according to the integer thresholds ceil(10^(e-0.5)), e = 0..19 (assumed; pins round(log10(x)))",
 )
+
+R.contract(
+    "sum",
+    params=dict(xs="list[float]"),
+    returns="float",
+    ensures={"is_prefix_sum": "result == psum(xs, len(xs))"},
+    allocates=False,
+    note="builtin sum over a sequence of numbers (assumed)",
+)
+R.contract(
+    "sum_int",
+    params=dict(xs="list[int]"),
+    returns="int",
+    ensures={"is_prefix_sum": "result == psum(xs, len(xs))"},
+    allocates=False,
+    note="builtin sum over a sequence of ints (assumed)",
+)
